@@ -1,6 +1,7 @@
 package main
 
 import (
+	"bytes"
 	"context"
 	"errors"
 	"fmt"
@@ -695,6 +696,93 @@ func scanToName(w api.WareID) string {
 	return "complete:" + string([]byte{w.Hash[0]}) + w.Hash[len(w.Hash)-3:]
 }
 
+// kvfsRewrite: the ware is already at its final address (packed / mirrored there before) and is written again. A reader
+// looks at the address at every step of the second write: it always finds the complete ware; and when the second write
+// fails at its rename, the ware that was there is still there. Recipe: "kvfs-rewrite <pack-tar|pack-zip|mirror> <ca|file>".
+func kvfsRewrite(c *Ctx, what, whKind string) {
+	caseCounter++
+	op := fmt.Sprintf("kvfs-rewrite %s %s", what, whKind)
+	base := filepath.Join(c.Work, fmt.Sprintf("kvrw%d", caseCounter))
+	defer rmrf(base)
+	src, whDir, srcWh := filepath.Join(base, "src"), filepath.Join(base, "wh"), filepath.Join(base, "srcwh")
+	os.MkdirAll(src, 0755)
+	os.MkdirAll(whDir, 0755)
+	os.MkdirAll(srcWh, 0755)
+	os.Setenv("RIO_CACHE", filepath.Join(base, "cache"))
+	os.WriteFile(filepath.Join(src, "f"), bytes.Repeat([]byte("rewrite"), 5000), 0644)
+	ctx := context.Background()
+	pf := api.MustParseFilesetPackFilter(losslessPackStr)
+	fmtName, fn := "tar", funcsFor("tar")
+	if what == "pack-zip" {
+		fmtName, fn = "zip", funcsFor("zip")
+	}
+	id, err := fn.pack(ctx, api.PackType(fmtName), src, pf, whAddr("ca", srcWh), rio.Monitor{})
+	if err != nil {
+		c.EmitR(op, "skip", "skip")
+		return
+	}
+	write := func() string {
+		var e error
+		var pan string
+		if what == "mirror" {
+			// (a mirror into a target that has the ware is a no-op: remove it from the *probe*'s point of view by mirroring
+			// through the kvfs layer is not possible; packs exercise the rewrite, mirror the no-op)
+			_, e, pan = safeCall(func() (api.WareID, error) {
+				return fn.mirror(ctx, id, whAddr(whKind, whDir), []api.WarehouseLocation{whAddr("ca", srcWh)}, rio.Monitor{})
+			})
+		} else {
+			_, e, pan = safeCall(func() (api.WareID, error) {
+				return fn.pack(ctx, api.PackType(fmtName), src, pf, whAddr(whKind, whDir), rio.Monitor{})
+			})
+		}
+		switch {
+		case pan != "":
+			return "panic"
+		case e != nil:
+			return "err " + catOf(e)
+		}
+		return "ok"
+	}
+	if r := write(); r != "ok" {
+		c.EmitR(op, "skip", "skip")
+		return
+	}
+	final := storedWarePath(whKind, whDir, id)
+	complete := func() bool {
+		sid, e2, pan := safeCall(func() (api.WareID, error) {
+			return fn.scan(ctx, api.PackType(fmtName), api.MustParseFilesetUnpackFilter(losslessUnpackStr), rio.Placement_Direct, api.WarehouseLocation("file://"+final), rio.Monitor{})
+		})
+		return e2 == nil && pan == "" && sid == id
+	}
+	c.EmitR(op, "skip", "skip")
+	for _, fault := range []string{"none", "rename"} {
+		lost := ""
+		verifhook.Set(func(name string, detail []string) error {
+			if name == "kvfs.write" || strings.HasPrefix(name, "kvfs.commit") {
+				verifhookQuiet(func() {
+					if !complete() && lost == "" {
+						lost = name
+					}
+				})
+			}
+			if fault == "rename" && name == "kvfs.commit.rename" {
+				return errors.New("injected fault: rename failed")
+			}
+			return nil
+		})
+		r := write()
+		verifhook.Set(nil)
+		if lost != "" {
+			c.PropFail("reader-saw-partial", fmt.Sprintf("while %s wrote a ware again that its address already held, a reader at step %s did not find the complete ware there", what, lost), op)
+		}
+		if !complete() {
+			c.PropFail("error-but-committed", fmt.Sprintf("a second %s of a ware already at its address (fault: %s, answer: %s) left the address without the complete ware", what, fault, r), op)
+		}
+		c.H("rewrite:" + what + ":" + whKind + ":" + fault + ":" + strings.Fields(r)[0])
+	}
+	c.Distinct(op)
+}
+
 func kvfsEngine(c *Ctx) {
 	if ls := replayLines(); ls != nil {
 		for _, op := range ls {
@@ -710,6 +798,9 @@ func kvfsEngine(c *Ctx) {
 			} else if strings.HasPrefix(op, "kvfs-xdev ") {
 				f := strings.Fields(op)
 				kvfsXdev(c, f[1], f[2])
+			} else if strings.HasPrefix(op, "kvfs-rewrite ") {
+				f := strings.Fields(op)
+				kvfsRewrite(c, f[1], f[2])
 			} else if strings.HasPrefix(op, "kvfs-overlap ") {
 				f := strings.Fields(op)
 				n := 0
@@ -764,6 +855,7 @@ func kvfsEngine(c *Ctx) {
 	}
 	for _, w := range whats {
 		for _, k := range []string{"ca", "file"} {
+			kvfsRewrite(c, w, k)
 			kvfsOverlap(c, w, k, 0)
 			kvfsOverlap(c, w, k, 1+c.Intn(6))
 		}
